@@ -1,6 +1,7 @@
 package checks
 
 import (
+	"bytes"
 	"encoding/json"
 	"fmt"
 	"os"
@@ -24,8 +25,40 @@ type c19PoolCase struct {
 }
 
 func c19PoolObserve(pc c19PoolCase, fresh bool) (obs string, events int, ok bool) {
-	vsched.PoolFresh = fresh
-	defer func() { vsched.PoolFresh = false }()
+	mode := ""
+	if fresh {
+		mode = "fresh-pools"
+	}
+	return transparencyObserve(pc, mode)
+}
+
+// transparencyObserve runs one deterministic scenario under an environment variation that a correct endpoint
+// cannot notice and returns everything observable: "" (as given), "fresh-pools" (no recycling, scramble on
+// release), "bytewise" / "read-1" / "read-7" (the same bytes reach the transport one octet per delivery, or whole
+// but handed out 1 / 7 octets per Read).
+func transparencyObserve(pc c19PoolCase, mode string) (obs string, events int, ok bool) {
+	vsched.PoolFresh = mode == "fresh-pools"
+	switch mode {
+	case "bytewise":
+		harness.SegMode = 1
+	case "read-1":
+		harness.SegMode = 2
+	case "read-7":
+		harness.SegMode = 3
+	}
+	defer func() {
+		vsched.PoolFresh = false
+		harness.SegMode = 0
+		if r := recover(); r != nil {
+			if mode != "" {
+				// the scenario ran as given and cannot even be driven under the variation: that is a difference
+				obs, events, ok = fmt.Sprintf("the scenario could not be driven to its end: %v", r), 0, true
+				return
+			}
+			js, _ := json.Marshal(pc)
+			panic(fmt.Sprintf("%v\n  while observing %s under %q", r, js, mode))
+		}
+	}()
 	switch pc.Kind {
 	case "c17":
 		var cs c17Case
@@ -190,6 +223,73 @@ func c19PoolCases(thorough bool) []c19PoolCase {
 		}
 	}
 	return out
+}
+
+// runSegmentation: family "segmentation" of C17 (server scenarios) and C12 (client scenarios). How a byte stream
+// is cut into segments and reads is invisible to the protocol: the same scenario must give the same observations
+// when the peer's bytes arrive one octet at a time or are read 1 / 7 octets at a time.
+func runSegmentation(c *fw.Ctx, kinds map[string]bool, label string) {
+	if vsched.DefaultPolicy != 0 {
+		return
+	}
+	var cases []c19PoolCase
+	for _, pc := range c19PoolCases(c.Tier == "thorough") {
+		if kinds[pc.Kind] {
+			cases = append(cases, pc)
+		}
+	}
+	c.Bound["segmentation_scenarios"] = len(cases)
+	for i, pc := range cases {
+		if !c.Mine(int64(1)<<49 + int64(i)) {
+			continue
+		}
+		if c.Expired(label + " segmentation") {
+			break
+		}
+		a, ev, ok := transparencyObserve(pc, "")
+		if !ok {
+			continue
+		}
+		js, _ := json.Marshal(pc)
+		for _, mode := range []string{"bytewise", "read-1", "read-7"} {
+			if mode == "bytewise" && (bytes.Contains(pc.Case, []byte(`"lead":`)) || bytes.Contains(pc.Case, []byte(`-same-segment"`))) {
+				// these scenarios are about what arrives together with the offending frame: how far the
+				// stream loop has got when the read loop meets it (and so the truthful last-stream-id of the
+				// GOAWAY) legitimately depends on it; delivering octet by octet is a different scenario
+				continue
+			}
+			b, ev2, _ := transparencyObserve(pc, mode)
+			c.Eval(nt(true, append([]byte(mode), js...)))
+			c.AddTransitions(int64(ev + ev2))
+			c.AddTraces(1)
+			if a != b {
+				d := firstDiff(a, b)
+				d = strings.Replace(d, "recycling pools:  ", "as given:         ", 1)
+				d = strings.Replace(d, "no reuse, scrambled on release:", mode+":", 1)
+				c.Violate(fw.Violation{Rule: "segmentation-dependent", Shape: pc.Kind + " " + mode + ": " + poolDiffShape(firstDiff(a, b)), Detail: "the same bytes, delivered differently (" + mode + "), give different observations:\n    " + d + "\n    scenario: " + string(js), Replay: map[string]any{"family": "segmentation", "mode": mode, "case": pc}})
+				c.Outcome("segmentation-dependent")
+			} else {
+				c.Outcome("segmentation-independent:" + mode)
+			}
+		}
+	}
+	c.Family("segmentation")
+}
+
+func replaySegmentation(raw json.RawMessage) (string, bool) {
+	var r struct {
+		Mode string      `json:"mode"`
+		Case c19PoolCase `json:"case"`
+	}
+	if err := json.Unmarshal(raw, &r); err != nil {
+		return err.Error(), false
+	}
+	a, _, _ := transparencyObserve(r.Case, "")
+	b, _, _ := transparencyObserve(r.Case, r.Mode)
+	if a != b {
+		return "segmentation-dependent (" + r.Mode + "): " + firstDiff(a, b), true
+	}
+	return "observations identical under " + r.Mode, false
 }
 
 func runC19Pool(c *fw.Ctx) {
